@@ -96,9 +96,9 @@ class HostRun(host.HostRun):
 
   cur_block_dim = None
 
-  def __init__(self, *a, naming=True, **kw):
+  def __init__(self, *a, naming=True, skip_tiled=False, skip_fills=False, **kw):
     super().__init__(*a, **kw)
-    self.naming, self.defs, self.interps = naming, [], []
+    self.naming, self.defs, self.interps, self.skip_tiled, self.skip_fills = naming, [], [], skip_tiled, skip_fills
 
   def writes(self, cell):
     """plain stores into `cell` in execution order: [(index tuple, stored value)] (all threads of all launches)"""
@@ -135,11 +135,34 @@ class HostRun(host.HostRun):
       self.events.append(host.Event("copy", info=(dest.name_, getattr(src, "name_", sc.name))))
 
     wp.copy = copy
+    if self.skip_tiled and hasattr(wp, "launch_tiled"):
+      # tile kernels are only recorded (their outputs stay arbitrary): for runs whose claims do not depend on them
+
+      def launch_tiled(*a, **kw):
+        kernel = a[0] if a else kw.get("kernel")
+        self.events.append(host.Event("launch_tiled", kernel, kw.get("dim")))
+
+      wp.launch_tiled = launch_tiled
+    if self.skip_fills:
+      # host-level zero_ / fill_ belong to stages whose launches are skipped: the stage output stays arbitrary
+      self._fills = (host.SymArr.zero_, host.SymArr.fill_)
+
+      def zero_(a):
+        self.events.append(host.Event("zero_", info=a.name_))
+        return a
+
+      def fill_(a, v):
+        self.events.append(host.Event("fill_", info=a.name_))
+        return a
+
+      host.SymArr.zero_, host.SymArr.fill_ = zero_, fill_
     return self
 
   def __exit__(self, *exc):
     host.SymArr.__getitem__ = _orig_getitem
     host.Interp = self._interp
+    if self.skip_fills:
+      host.SymArr.zero_, host.SymArr.fill_ = self._fills
     return super().__exit__(*exc)
 
 
@@ -149,7 +172,7 @@ _AX = ["1 0 0", "0 1 0", "0 0 1"]
 
 
 def _hinge(i, typ="hinge"):
-  return f"<joint type='{typ}' axis='{_AX[i % 3]}' damping='{0.3 + 0.1 * i}' armature='{0.05 * (i + 1)}'/><geom size='.1' pos='.1 .2 .3' mass='{1 + 0.5 * i}'/>"
+  return f"<joint type='{typ}' axis='{_AX[i % 3]}' damping='{0.3 + 0.1 * i}' stiffness='{1.5 + 0.5 * i}' springref='0.3' armature='{0.05 * (i + 1)}'/><geom size='.1' pos='.1 .2 .3' mass='{1 + 0.5 * i}'/>"
 
 
 def chain(n, k0=0):
